@@ -28,6 +28,11 @@ func H_c02(p []int) {
 			vAssume(bs[k] != '\n')
 		}
 	}
+	if lfpos >= 100 {
+		// secret templates: concrete markers / truncated sequences between
+		// the symbolic (non-LF) bytes; the class fixes the template
+		bs = c02Template(lfpos-100, bs)
+	}
 	i := 42
 	skind := kind
 	if strings.Contains(d, "*") {
@@ -77,6 +82,33 @@ func H_c02(p []int) {
 	vObserve("const:redacted", redactRef(out))
 	vCover(n > 0, "symbolic-secret")
 }
+
+// c02Template interleaves the symbolic bytes b with concrete material.
+func c02Template(t int, b []byte) []byte {
+	at := func(k int) []byte {
+		if k < len(b) {
+			return b[k : k+1]
+		}
+		return nil
+	}
+	switch t {
+	case 0:
+		return cat(at(0), mE, at(1))
+	case 1:
+		return cat(mS, at(0), at(1))
+	case 2:
+		return cat(at(0), []byte{0xE2}, mE, at(1)) // truncated sequence, then a marker
+	case 3:
+		return cat([]byte{0xE2, 0x80}, at(0), mE, at(1))
+	case 4:
+		return cat(at(0), []byte{0xC3}, mS, at(1))
+	case 5:
+		return cat(at(0), []byte{0xF0, 0x9F}, mE, at(1), mS)
+	}
+	panic("c02Template")
+}
+
+const nC02Templates = 6
 
 // H_c02m: two operands in one call, the first under Safe() or Unsafe():
 // what the first leaves behind must not change how the second is classified.
